@@ -494,6 +494,18 @@ def family_S(seed: int, count: int, *, big=False) -> List[Spec]:
                 tcount += 1
                 find(cfg, lf.path)["always"] = {"target": "#" + ".".join(rng.choice(sibs).path), "guard": "g2",
                                                 "actions": [f"tr:always:{tcount}"]}
+        # two regions whose eventless transitions are enabled in the SAME microstep, the first (by id order)
+        # leaving the whole parallel state, which makes the second one stale before it is executed
+        if use_par and rng.random() < 0.3:
+            regs = sorted(par.kids, key=lambda n: ".".join(n.path))
+            ra, rb = regs[0], regs[1]
+            la, lb = ra.kids[0], rb.kids[0]
+            if "always" not in find(cfg, la.path) and "always" not in find(cfg, lb.path):
+                tcount += 1
+                find(cfg, la.path)["always"] = {"target": "#m.z", "guard": "g1", "actions": [f"tr:always:{tcount}"]}
+                tcount += 1
+                find(cfg, lb.path)["always"] = {"target": "#" + ".".join(rb.kids[1].path), "guard": "g1",
+                                                "actions": [f"tr:always:{tcount}"]}
         out.append(Spec(cfg, "S", f"S-{seed}-{i}"))
     return out
 
